@@ -189,6 +189,13 @@ def run(ctx):
             odd.append({"op": "icu", "work": os.path.join(WORK, "c09b"),
                         "cargo_toml": '[package]\nname = "p"\n[package.metadata.leptos-i18n]\ndefault = "en"\nlocales = ["en", %s]\n' % json.dumps(name),
                         "files": [["locales/en.json", '{"a": "x"}'], [f"locales/{name}.json", '{"a": "y"}']]})
+        # configuration corners: an explicitly empty namespace list / locale list, a namespace without any file content
+        for extra_cfg, files in (('namespaces = []\n', [["locales/en.json", '{"a": "x"}']]),
+                                 ('namespaces = []\nlocales-dir = "locales"\n', []),
+                                 ('namespaces = ["only"]\n', [["locales/en/only.json", "{}"], ["locales/fr/only.json", "{}"]])):
+            odd.append({"op": "icu", "work": os.path.join(WORK, "c09b"),
+                        "cargo_toml": '[package]\nname = "p"\n[package.metadata.leptos-i18n]\ndefault = "en"\nlocales = ["en", "fr"]\n' + extra_cfg,
+                        "files": files + [["locales/fr.json", '{"a": "y"}']] if "only" not in extra_cfg else files})
         breqs = odd + [{"op": "icu", "work": os.path.join(WORK, "c09b"), "cargo_toml": q["cargo_toml"], "files": q["files"]} for q in reqs[: ctx.budget(300, 5000)]]
         bres = run_lines_resilient(binb, breqs, timeout=3600)
         for q, r in zip(breqs, bres):
